@@ -3,7 +3,8 @@ import os
 import vlib, e2e
 from vlib import hx, unhx, case_line, show
 
-THEOREMS = ["C09_member", "C09_errors", "C09_members_wired", "C09_slash_refuted"]
+THEOREMS = ["C09_pods_want_exactly_their_members", "C09_run_position", "C09_members_spec", "C09_registered_spec", "C09_members_are_bound_to_their_pod",
+            "C09_table_along_the_run", "C09_member", "C09_errors", "C09_members_wired", "C09_slash_refuted"]
 
 
 def gen_set(rng):
